@@ -145,7 +145,13 @@ class C20(Machine):
                         abandon = op == "permutk_abandon" and total > 1
                         npull = rng.randint(1, max(1, total - 1)) if abandon else total + 1
                         npull = min(npull, 30)
-                        pulls = [pb.step(c, k="pull", gen=g, n=1, tag="pull", role="pull", obj=fn["permutk"]) for _ in range(npull)]
+                        pulls = []
+                        scrib = rng.random() < 0.35      # this consumer edits the arrangements it is handed
+                        for _ in range(npull):
+                            pulls.append(pb.step(c, k="pull", gen=g, n=1, tag="pull", role="pull", obj=fn["permutk"]))
+                            if scrib and rng.random() < 0.5:
+                                pb.step(c, k="mutate_result", ref=pulls[-1], item=0, how=rng.choice(["swap", "reverse", "clear"]),
+                                        tag="scribble_yielded", role="env", obj=fn["permutk"])
                         if abandon and rng.random() < 0.5:
                             pb.step(c, k="close", gen=g, tag="close", role="close", obj=fn["permutk"])
                         meta["gens"].append({"start": g, "pulls": pulls, "lst": lo, "k": k, "abandoned": abandon or npull < total + 1})
